@@ -13,5 +13,5 @@ Interferers == {Pt("iface", "wire", -1, FALSE, {}, FALSE),       \* optional, ab
 PtLists == {<<a>> : a \in QPts} \cup {<<i, a>> : i \in Interferers, a \in QPts}
            \cup (IF MaxPts >= 3 THEN {<<i, a, b>> : i \in Interferers, a \in QPts, b \in QPts} ELSE {})
 \* enumerated by nested quantification: building the set of scenario records first is far slower
-MCInit == \E p \in Pops, l \in PtLists : InitWith([prov |-> p, pts |-> l, preset |-> FALSE])
+MCInit == \E p \in Pops, l \in PtLists : InitWith([prov |-> p, pts |-> l, preset |-> FALSE, extra |-> FALSE])
 =============================================================================
